@@ -27,6 +27,7 @@ D2 == IF Full2
            \cup {<<"func", <<a, b>>, r>> : a \in {B("string")}, b \in {B("int")}, r \in Deep}
            \cup {<<"named", "Box", <<t>>>> : t \in Deep}
            \cup {<<"named", "dict.Dict", <<k, v>>>> : k \in Sh, v \in Deep}
+           \cup {<<"named", "Duo", <<a, b>>>> : a \in Deep, b \in {B("string")}} \cup {<<"named", "Duo", <<a, b>>>> : a \in {B("int")}, b \in Deep}
       ELSE {}
 \* a few depth 3 shapes that stress every pair of levels
 D3 == {<<"slice", <<"slice", <<"tuple", <<B("int"), <<"slice", B("string")>>>>>>>>>>,
